@@ -72,6 +72,20 @@ func SignalNotify(c chan<- os.Signal, sigs ...os.Signal) {
 	k.leave()
 }
 
+// ServeServer is (*http.Server).ListenAndServe over the simulated network (the
+// server's timeouts apply to simulated connections as they do to real ones).
+func ServeServer(srv *http.Server) error {
+	addr := srv.Addr
+	if addr == "" {
+		addr = ":80"
+	}
+	l, err := Listen("tcp", addr)
+	if err != nil {
+		return err
+	}
+	return srv.Serve(l)
+}
+
 // SignalStop undoes SignalNotify for the channel: the node's signals get their
 // default action again (unless another channel is still registered for them).
 func SignalStop(c chan<- os.Signal) {
@@ -106,7 +120,7 @@ func (k *Kernel) Signal(node string, sig os.Signal) int {
 	k.enter()
 	var regs []sigReg
 	for _, n := range k.nodes {
-		if n.Name == node {
+		if n.Name == node && !n.dead {
 			for _, sr := range n.sigs {
 				regs = append(regs, sr)
 			}
@@ -249,6 +263,9 @@ func CloudSDKConfig(account string) (*SDKConfig, error) {
 	if CloudStartupDelay > 0 {
 		time.Sleep(CloudStartupDelay)
 	}
+	if GCE.On {
+		return nil, errors.New("no Cloud SDK configuration on this machine")
+	}
 	return &SDKConfig{}, nil
 }
 
@@ -256,9 +273,23 @@ func CloudDefaultClient(ctx context.Context, scopes ...string) (*http.Client, er
 	return CloudClient(), nil
 }
 
-func OnGCE() bool { return false }
+// GCE, when On, makes the process believe it runs on a Compute Engine VM: there
+// is no Cloud SDK configuration, the default credentials are used, and the
+// metadata server is answered by Get (which may sleep to play a slow or
+// stalled metadata server). Set by a world before it starts the agent.
+var GCE struct {
+	On  bool
+	Get func(path string) (string, error)
+}
 
-func MetadataGet(path string) (string, error) { return "", errors.New("not on GCE") }
+func OnGCE() bool { return GCE.On }
+
+func MetadataGet(path string) (string, error) {
+	if GCE.On && GCE.Get != nil {
+		return GCE.Get(path)
+	}
+	return "", errors.New("not on GCE")
+}
 
 // TapeReader is an io.Reader over a tape-derived stream, safe for concurrent
 // use without ordering its callers.
@@ -271,6 +302,14 @@ func (t *TapeReader) Read(p []byte) (int, error) {
 	K.leave()
 	return n, err
 }
+
+// Crash kills every program running on the node at once (power loss, kill -9):
+// its goroutines stop, its listeners and connections are gone (peers see
+// resets). A program spawned under the same name afterwards is a fresh start.
+func (k *Kernel) Crash(node string) { k.killNode(node, 137, HarnessKill) }
+
+// HarnessKill is the exit message of a node the harness crashed on purpose.
+const HarnessKill = "killed by the harness"
 
 // killNode terminates a node from outside (default signal action, harness kill).
 //
